@@ -409,6 +409,11 @@ where
     B: Send + 'static,
 {
     fn push(&mut self, token: Token, mut connection: C, pool_ref: PoolRef<C, B>) {
+        if !connection.is_open() {
+            trace!(?token, "connection is closed, not adding it to the pool");
+            return;
+        }
+
         if let Some(waiters) = self.waiting.get_mut(&token) {
             trace!(waiters=%waiters.len(), ?token, "walking waiters");
 
